@@ -276,6 +276,18 @@ def run_batch(ctx, audit, strings, hows, safety, bi):
                 continue    # rejected (parser / safety exception) or a foreign translation failure (C06's business): nothing was generated
             src = t.value
             r.count('sources_tokenized')
+            if (idx + len(how)) % 4 == 0:
+                # the class is ALSO written by write_translation onto a path that already holds a longer file ending in text taken from
+                # the workbook (an earlier, longer class): what can be loaded afterwards is the new class and nothing else
+                gen = os.path.join(ctx.workdir, 'generated_class.py')
+                with open(gen, 'w', encoding='utf-8', newline='') as f0:
+                    f0.write(src + '\n' + 'x' * 40 + '\n' + s + '\n' + text + '\n')
+                w = pipeline.guarded(lambda: pipeline.make_parser(book.path, pipeline.entry_cell('S1', a), safety).write_translation(gen), 'translate')
+                r.count('classes_written_over_longer_files')
+                now = open(gen, encoding='utf-8', newline='').read() if os.path.exists(gen) else None
+                if not w.ok or now != src:
+                    report(r, ID, None, case, w.brief() if not w.ok else {'file_len': len(now or ''), 'text_len': len(src), 'tail': (now or '')[len(src):][:80]},
+                           'the file holds the returned class and nothing of what was there before', monitor='written-file-equals-text')
             bad = marker_tokens_ok(src, [marker])
             if bad:
                 report(r, ID, None, case, {'marker_outside_string_tokens': bad[:3]}, 'workbook text only inside string constants', monitor='source-token-monitor')
